@@ -139,22 +139,25 @@ Shown(cs) ==
 
 EmitState ==
   (EmitOn /\ Bound) =>
-     LET rt == RoundTrip(st, 1) IN
      PrintT(ToJson([ h |-> [x \in DOMAIN hist |-> <<Compact(hist[x].c), hist[x].out>>],
                      st |-> Shown(st),
                      ser |-> Serializable(st, 1),
                      loose |-> SerializableLoose(st, 1),
                      why |-> WhyNot(st, 1),
                      proto |-> Ser(st, 1),
-                     tnPost |-> SerEffect(st, 1).tn,
-                     rtErr |-> rt.err,
-                     rtIso |-> (rt.err = "" /\ Iso(st, 1, rt.cs, rt.root)) ]))
+                     tnPost |-> SerEffect(st, 1).tn ]))
 
-\* ---- the design theorems, one INVARIANT each ------------------------------------------------------
-InvRoundTrip == C03RoundTrip(st, 1)
+\* ---- the design theorems of SerdeIR as invariants -----------------------------------------------------
+\* C03RoundTrip(st, 1) /\ DeserConsistent(st, 1), written out so that the round trip is computed once per state
+InvRoundTrip ==
+  LET r == RoundTrip(st, 1) IN
+  /\ Serializable(st, 1) => (r.err = "" /\ Iso(st, 1, r.cs, r.root))
+  /\ r.err = "" => C01Inv(Obs(r.cs.s))
+\* NOT a theorem (SerdeIRMC_loose.cfg shows the counterexample, seed E): with graph outputs allowed to be
+\* outer-scope values the round trip loses the identity of such an output - the reason for clause S4's second line
+InvRoundTripLoose == SerializableLoose(st, 1) => RoundTripIso(st, 1)
 InvTwice == C03Twice(st, 1)
 InvEffect == C03Effect(st, 1)
-InvDeserConsistent == DeserConsistent(st, 1)
 InvC01 == C01Inv(Obs(st.s))
 InvMech == CountOK(st.s) /\ OwnerOK(st.s)
 RejectAtomic == [][IsRej(last'.out) => st' = st]_vars
